@@ -349,6 +349,13 @@ func raceScripts(r *rand.Rand, n int) []raceScript {
 			}
 		}
 	}
+	// always: the options the driver knows (a configured depth ends a bare go; the book can be switched off; noise), and
+	// commands it ignores
+	ret = append(ret,
+		raceScript{"plain", []string{"> setoption name Depth value 2", "> position startpos", "> go", "wait-bestmove 9000", "quiet 100",
+			"> setoption name Noise value 30", "> go", "wait-bestmove 9000", "quiet 100", "> setoption name Depth value -1", "> setoption name Depth", "> setoption", "sync", "alive"}, "options"},
+		raceScript{"sargon", []string{"> setoption name OwnBook value false", "> position startpos", "> go depth 1", "wait-bestmove 20000", "quiet 100",
+			"> setoption name OwnBook value true", "> go", "wait-bestmove 20000", "quiet 100", "> ponderhit", "> register later", "sync", "alive"}, "options"})
 	// always: numeric arguments at the edges (the parser accepts any integer; whatever it means to the time control, the
 	// driver must answer and stay alive)
 	ret = append(ret,
